@@ -169,13 +169,17 @@ func (cb *CircuitBreaker) beforeRequest() error {
 		if canRetry {
 			vgate("cb:tohalf")
 			cb.mutex.Lock()
+			var notify func()
 			// Double-check state hasn't changed
 			if cb.state == StateOpen && cb.nextAttempt.Before(now) {
-				cb.setState(StateHalfOpen)
+				notify = cb.setState(StateHalfOpen)
 				cb.requestCount = 0
 				cb.successCount = 0
 			}
 			cb.mutex.Unlock()
+			if notify != nil {
+				notify()
+			}
 			return nil
 		}
 		return ErrCircuitBreakerOpen
@@ -198,6 +202,15 @@ func (cb *CircuitBreaker) beforeRequest() error {
 
 // afterRequest updates the circuit breaker state after a request
 func (cb *CircuitBreaker) afterRequest(success bool) {
+	// The state-change callback runs after the lock is released (deferred
+	// first, so it runs last): callbacks may call back into the breaker.
+	var notify func()
+	defer func() {
+		if notify != nil {
+			notify()
+		}
+	}()
+
 	vgate("cb:after")
 	cb.mutex.Lock()
 	defer cb.mutex.Unlock()
@@ -212,7 +225,7 @@ func (cb *CircuitBreaker) afterRequest(success bool) {
 		case StateHalfOpen:
 			cb.successCount++
 			if cb.successCount >= cb.successThreshold {
-				cb.setState(StateClosed)
+				notify = cb.setState(StateClosed)
 				cb.failureCount = 0
 			}
 		}
@@ -223,26 +236,32 @@ func (cb *CircuitBreaker) afterRequest(success bool) {
 		switch cb.state {
 		case StateClosed:
 			if cb.failureCount >= cb.failureThreshold {
-				cb.setState(StateOpen)
+				notify = cb.setState(StateOpen)
 				cb.nextAttempt = now.Add(cb.timeout)
 			}
 		case StateHalfOpen:
-			cb.setState(StateOpen)
+			notify = cb.setState(StateOpen)
 			cb.nextAttempt = now.Add(cb.timeout)
 		}
 	}
 }
 
-// setState changes the circuit breaker state and calls the callback
-func (cb *CircuitBreaker) setState(state State) {
+// setState changes the circuit breaker state. It must be called with the
+// write lock held; the returned function (nil if there is nothing to report)
+// invokes the OnStateChange callback and must be called after the lock has
+// been released, so that a callback may safely call State() or Counts().
+func (cb *CircuitBreaker) setState(state State) func() {
 	if cb.state == state {
-		return
+		return nil
 	}
 
 	prev := cb.state
 	cb.state = state
 
-	if cb.onStateChange != nil {
+	if cb.onStateChange == nil {
+		return nil
+	}
+	return func() {
 		cb.onStateChange(cb.name, prev, state)
 	}
 }
